@@ -562,6 +562,15 @@ impl<'a> Lock<'a> {
                         continue;
                     };
                     let k = key_u64(b.zkey);
+                    // what was loaded must carry the key of what it now holds, component by component:
+                    // a reader that drops or alters a component but keeps the key of the text (or the
+                    // reverse) makes two different positions share a key one move later
+                    if k != key_u64(ZKey::from(&b)) {
+                        self.viol(
+                            "perturbation-key-inconsistent",
+                            format!("'{fen}': the key stored by the loader ({k}) is not the key of the position it holds ({}); observed components after loading: {}", key_u64(ZKey::from(&b)), eng::observe(&b).fen4()),
+                        );
+                    }
                     // the key the engine is actually using for the position on the board (maintained
                     // incrementally) must not be the key of one of its neighbours
                     if k == played_key && q.ident() != played_ident {
